@@ -338,7 +338,10 @@ theorem core (admits : String → Bool) (env : Env) (ρ : Nat → Res) :
     simp [astToIR] at h
     simp [← h.1, irToPy] at hpy
     subst hpy
-    simpa [PyExpr.eval, Interp.eval] using hv
+    simp only [PyExpr.eval] at hv
+    split at hv
+    · simp at hv
+    · simpa [Interp.eval] using hv
   | var s =>
     intro refs refs' ir py h hpy hρ _ v hv
     simp only [astToIR] at h
